@@ -152,3 +152,12 @@ CLAIMS["C27"] = (
     "6/C27", TRUSTED + "; completeness of the probe set holds for sets whose break points lie on the grid "
     "{-2,-1,0,1/2,1,3/2,2,3}; sup/inf are not checked yet",
     "TLA+ pointwise set semantics on a complete probe grid + TLC trace validation")
+
+CLAIMS["C28"] = (
+    "model_checking",
+    "TLC enumerates formulas over 12 atoms (relationals, Contains in finite sets and an interval, constants) and "
+    "their negations under and/or/not/xor/nand/nor/xnor (all binary combinations of literals, seeded ternary and "
+    "nested ones) and Piecewise expressions; the truth-value semantics of module Term (three-valued, membership "
+    "through SetsAlg) is evaluated on the recipe and on the dumped simplified formula at 25 assignments realising "
+    "every cell of the atoms: a complete truth table over the atoms' cells",
+    "6/C28", TRUSTED, "TLA+ truth-table semantics + TLC trace validation")
